@@ -54,6 +54,10 @@ pub fn run(id: &str) -> i32 {
         "KF8" => {
             catch_unwind(|| wcet::Curve::new(vec![]).least_wcet(1)).is_err()
         }
+        // KF9: an ArrivalCurvePrefix without steps (nothing ever arrives, e.g. derived from Never) panics in lookup
+        "KF9" => {
+            catch_unwind(|| ArrivalCurvePrefix::from_arrival_bound_until(&Never {}, d(10)).number_arrivals(d(3))).is_err()
+        }
         _ => { eprintln!("unknown witness {}", id); return 2; }
     };
     println!("{} {}", id, if reproduces { "reproduces" } else { "does not reproduce" });
